@@ -665,10 +665,36 @@ func (g *Gen) Next() *Item {
 		if it := g.make(k); it != nil {
 			return it
 		}
+		// a call kind whose contract does not exist yet: deploy it, so that the
+		// next block can make the call
+		switch k {
+		case KToken, KTokenOver, KTokenContract:
+			// nobody holds an issued token yet: issue some to a generator account
+			if cs := g.liveNotDying(CIssuer); len(cs) > 0 {
+				f := g.pickAcct()
+				if it := g.Call(f, KCallIssue, cs[g.T.Int(len(cs))], bi(0), CallIssue(mulU(bi(1e10), uint64(1+g.T.Int(100000))), f.Addr), 0, false); it != nil {
+					return it
+				}
+			}
+		case KUtxo2Utxo, KUtxo2Acc:
+			// nothing hidden to spend yet: fund a wallet
+			if it := g.make(KAcc2Utxo); it != nil {
+				return it
+			}
+		}
+		if ck, ok := needs[k]; ok && len(g.liveNotDying(ck)) == 0 {
+			if it := g.Create(g.pickAcct(), ck, g.smallValue(), []byte{8, 10, 18, 18}[g.T.Int(4)]); it != nil {
+				return it
+			}
+		}
 	}
 	from := g.pickAcct()
 	return g.Transfer(from, g.pickAcct().Addr, bi(1))
 }
+
+// needs maps call kinds to the contract kind they call.
+var needs = map[Kind]ContractKind{KCallStore: CStore, KCallTight: CStore, KTokenContract: CStore, KCallRevert: CRevert, KCallIssue: CIssuer,
+	KCallIssueBad: CIssuerBad, KCallSuicide: CSuicide, KCallForward: CForward, KValueContract: CStore, KToken: CIssuer}
 
 // Batch generates n transactions.
 func (g *Gen) Batch(n int) []*Item {
